@@ -259,6 +259,7 @@ type UnitOpts struct {
 	TypeRename    [2]string // resolve type names in contracts with this prefix replaced (contracts reused for a sibling package)
 	Setup         func(ex *Exec, fr *frame, st *State)
 	AtExit        func(ex *Exec, fr *frame, g string, st *State, res []Val)
+	AtBackEdge    func(ex *Exec, fr *frame, lr *loopRec, edge int, g string, st *State) // top function only: a path has reached a back edge of loop lr
 }
 
 // verifyFunc builds the unit until the set of heap keys it touches is stable: every key is
@@ -333,6 +334,7 @@ func (p *Program) verifyFuncOnce(key string, opts *UnitOpts, prereg map[string]s
 	ex := p.newExec(shortKey(key) + opts.NameSuffix)
 	ex.unitSuffix = opts.NameSuffix
 	ex.traceOn = opts.Trace
+	ex.atBackEdge = opts.AtBackEdge
 	ex.typeRename = opts.TypeRename
 	ex.enteredPrev = entered
 	ex.topContract = fc
